@@ -9,6 +9,8 @@
     crash  - | o<j> | u<j> | w<j> | r<j>    kill on entry of the j-th open / unlink / write / rename call
            e<j>                             (fault, not a crash) every write from the j-th on fails with ENOSPC
 
+    rc … op=A:<dnshex>|D crash=- nm=<0|1>   the same operations on a host where NetworkManager is installed and
+                                            its reload fails (nm: its nextdns.conf drop-in exists) → … st=<…|errNM> … nm=<0|1>
   answer:  st=<ok|errOpen|errScan|killed> live=<node> bak=<node> tmp=<node> ext=ok
   (`orig` is only read by the python oracle.)
 -/
@@ -57,6 +59,26 @@ def statusStr : Status → String
   | .errOpen => "errOpen"
   | .errScan => "errScan"
 
+/-- host/dns_linux.go `ResetDNS` where NetworkManager's conf.d exists and `systemctl reload` fails:
+resolv.conf is dealt with FIRST (a missing backup ends the function with nil), the NetworkManager
+drop-in afterwards — (files afterwards, status, drop-in present afterwards) -/
+def resetNM (s : FS) (nm : Bool) : FS × String × Bool :=
+  let (ps, st) := reset s
+  let s' := applyAll s ps
+  match st, s.bak with
+  | .ok, .absent => (s', "ok", nm)                          -- rename: ENOENT → return nil
+  | .ok, _ => (s', if nm then "errNM" else "ok", false)     -- restored, then the drop-in is removed and the reload fails
+  | st, _ => (s', statusStr st, nm)
+
+/-- `SetDNS` on such a host: resolv.conf is activated first; then the drop-in is written and the
+reload fails -/
+def setupNM (s : FS) (dns : Bytes) (nm : Bool) : FS × String × Bool :=
+  let (ps, st) := setup Variant.cur s dns
+  let s' := applyAll s ps
+  match st with
+  | .ok => (s', "errNM", true)
+  | st => (s', statusStr st, nm)
+
 def fsStr (st : String) (s : FS) : String :=
   s!"st={st} live={nodeStr s.live} bak={nodeStr s.bak} tmp={nodeStr s.tmp} ext=ok"
 
@@ -96,6 +118,28 @@ def stepFS (toks : List String) : Option String :=
         let some e' := parseExt (op.drop 2).toString | return "bad-op"
         if c.isSome then return "bad-op"
         return fsStr "ok" { s with ext := e' }
+      else return "bad-op"
+  | ["rc", o, l, b, t, e, op, c, nm] =>
+    -- a host where NetworkManager is installed (conf.d exists) and reloading it fails; nm = its
+    -- drop-in /etc/NetworkManager/conf.d/nextdns.conf is present
+    some <| Id.run do
+      let some _ := fieldVal "orig" o | return "bad-op"
+      let some l := (fieldVal "live" l).bind parseNode | return "bad-op"
+      let some b := (fieldVal "bak" b).bind parseNode | return "bad-op"
+      let some t := (fieldVal "tmp" t).bind parseNode | return "bad-op"
+      let some e := (fieldVal "ext" e).bind parseExt | return "bad-op"
+      let some op := fieldVal "op" op | return "bad-op"
+      let some cs := fieldVal "crash" c | return "bad-op"
+      let some nm := fieldVal "nm" nm | return "bad-op"
+      if cs ≠ "-" ∨ (nm ≠ "0" ∧ nm ≠ "1") then return "bad-op"
+      let s : FS := ⟨l, b, t, e⟩
+      if op = "D" then
+        let r := resetNM s (nm = "1")
+        return fsStr r.2.1 r.1 ++ s!" nm={if r.2.2 then 1 else 0}"
+      else if op.startsWith "A:" then
+        let some dns := ofHex (op.drop 2).toString | return "bad-op"
+        let r := setupNM s dns (nm = "1")
+        return fsStr r.2.1 r.1 ++ s!" nm={if r.2.2 then 1 else 0}"
       else return "bad-op"
   | "rc" :: _ => some "bad-op"
   | _ => none
